@@ -618,6 +618,122 @@ static void propAll(vh::Rng& r, vh::PropLog& log, int cases)
     }
 }
 
+// third round, property mode: the complete hysteresis object on the real code alone
+static void propFull(vh::Rng& r, vh::PropLog& log, int cases)
+{
+    auto chk = [&](bool ok, const std::string& key, const std::string& detail) { log.ok(); if (!ok) log.fail(key, detail); };
+    static const char* FLAGS[3] = {"KR", "PC", "BOTH"};
+    static const char* SYSN[3] = {"ow", "go", "gw"};
+    for (int c = 0; c < cases; ++c) {
+        FullSetup F;
+        const int model = r.range(0, 4);
+        const std::string flag = FLAGS[r.range(0, 2)];
+        const bool same = r.coin(1, 3);
+        makeFull(r, F, model, flag, /*strict=*/true, same, /*scaling=*/false, /*noisy=*/false);
+        const int krModel = F.cfg->krHysteresisModel(), pcModel = F.cfg->pcHysteresisModel();
+        const std::string tag = std::string(SYSN[F.sys]) + " kr=" + std::to_string(krModel) + " pc=" + std::to_string(pcModel) + (same ? " same" : " diff") + " ";
+        const Eps::Params drain = F.P.drainageParams(), imb = F.P.imbibitionParams();
+        // the end-points of the two curves as the (scaled) end-point infos give them for this two-phase system — used to
+        // decide where a statement applies, never taken from the object under test
+        const auto& iD = F.infoD; const auto& iI = F.infoI;
+        const double eSncrd = F.sys == 1 ? iD.Sgcr + iD.Swl : F.sys == 2 ? iD.Sgcr : iD.Sowcr;
+        const double eSncri = F.sys == 1 ? iI.Sgcr + iI.Swl : F.sys == 2 ? iI.Sgcr : iI.Sowcr;
+        const double eSnmaxd = F.sys == 1 ? iD.Sgu + iD.Swl : F.sys == 2 ? iD.Sgu : 1.0 - iD.Swl - iD.Sgl;
+        const bool landOk = eSncri >= eSncrd && eSncri + 1e-9 <= eSnmaxd;
+        const int coupling = r.range(0, 2);
+        std::vector<Triple> h = tripleHistory(r, r.range(2, 14), r.range(0, 2), coupling);
+        double mnKrn = F.P.krnSwMdc(), mxKrw = F.P.krwSwMdc(), mnPc = F.P.pcSwMdc();
+        const double maxD = Eps::twoPhaseSatKrn(drain, 0.0), maxI = Eps::twoPhaseSatKrn(imb, 0.0);
+        for (size_t k = 0; k < h.size(); ++k) {
+            const Triple& t = h[k];
+            const std::string at = tag + "step " + std::to_string(k) + " (" + num(t.pc) + "," + num(t.krw) + "," + num(t.krn) + ")";
+            F.P.update(t.pc, t.krw, t.krn);
+            // --- reversal bookkeeping: running minima / maximum
+            mnKrn = std::min(mnKrn, t.krn); mxKrw = std::max(mxKrw, t.krw); if (pcModel == 0) mnPc = std::min(mnPc, t.pc);
+            chk(F.P.krnSwMdc() == mnKrn, "full.minimum.krn", at + " krnSwMdc " + num(F.P.krnSwMdc()) + " want " + num(mnKrn));
+            chk(F.P.krwSwMdc() == mxKrw, "full.maximum.krw", at + " krwSwMdc " + num(F.P.krwSwMdc()) + " want " + num(mxKrw));
+            chk(F.P.pcSwMdc() == mnPc, "full.minimum.pc", at + " pcSwMdc " + num(F.P.pcSwMdc()) + " want " + num(mnPc));
+            // --- idempotent update: the same saturations again change nothing
+            {
+                Hyst::Params Q = F.P;
+                const bool chg = Q.update(t.pc, t.krw, t.krn);
+                bool sameVals = true;
+                for (int q = 0; q <= 20; ++q) {
+                    const double sw = q / 20.0;
+                    sameVals = sameVals && hx(Hyst::twoPhaseSatKrn(Q, sw)) == hx(Hyst::twoPhaseSatKrn(F.P, sw)) && hx(Hyst::twoPhaseSatKrw(Q, sw)) == hx(Hyst::twoPhaseSatKrw(F.P, sw)) &&
+                               hx(Hyst::twoPhaseSatPcnw(Q, sw)) == hx(Hyst::twoPhaseSatPcnw(F.P, sw));
+                }
+                chk(!chg && Q == F.P && Q.pcSwMdc() == F.P.pcSwMdc() && sameVals, "full.idempotent-update", at + " update returned " + std::to_string(chg));
+            }
+            // --- drainage until the first reversal (non-wetting relperm; exact)
+            for (int q = 0; q < 4; ++q) {
+                const double sw = mnKrn * r.unit();
+                chk(Hyst::twoPhaseSatKrn(F.P, sw) == Eps::twoPhaseSatKrn(drain, sw), "full.drainage-until-reversal.krn", at + " sw=" + num(sw));
+                if (!F.P.initialImb() && sw <= F.P.pcSwMdc())
+                    chk(Hyst::twoPhaseSatPcnw(F.P, sw) == Eps::twoPhaseSatPcnw(drain, sw), "full.drainage-until-reversal.pc", at + " sw=" + num(sw));
+                if (krModel == 4 || krModel == 0 || krModel == 2 || krModel < 0)
+                    chk(Hyst::twoPhaseSatKrw(F.P, sw) == Eps::twoPhaseSatKrw(drain, sw), "full.drainage-until-reversal.krw", at + " sw=" + num(sw));
+            }
+            // --- Killough: trapped saturation, scanning-curve end points and range
+            const bool killough = krModel >= 2 || pcModel == 0;
+            const double snhy = 1.0 - F.P.krnSwMdc();
+            if (killough && landOk && snhy <= eSnmaxd + 1e-12)
+                chk(F.P.Sncrt() >= eSncrd - 1e-15 && F.P.Sncrt() <= std::max(eSncrd, snhy) + 1e-12 && F.P.Sncrt() <= eSncri + 1e-9, "full.killough.trapped-bounds",
+                    at + " Sncrd " + num(eSncrd) + " Sncrt " + num(F.P.Sncrt()) + " Snhy " + num(snhy) + " Sncri " + num(eSncri));
+            if (krModel >= 2 && snhy - F.P.Sncrt() > 1e-6) {
+                const double m = F.P.krnSwMdc(), kd = Eps::twoPhaseSatKrn(drain, m);
+                for (int q = 0; q <= 40; ++q) {                                 // range [0, max], every saturation
+                    const double sw = q / 40.0, v = Hyst::twoPhaseSatKrn(F.P, sw);
+                    chk(v >= -1e-14 && v <= std::max(maxD, maxI) * (1 + 1e-12) + 1e-14, "full.killough.range", at + " sw=" + num(sw) + " krn " + num(v) + " max " + num(std::max(maxD, maxI)));
+                }
+                if (landOk && snhy <= eSnmaxd) {
+                    // the trapped end of the scanning curve: the imbibition curve at its critical saturation, i.e. zero
+                    const double end = Hyst::twoPhaseSatKrn(F.P, 1.0 - F.P.Sncrt());
+                    if (1.0 - F.P.Sncrt() > m) chk(std::fabs(end) <= 1e-9, "full.killough.scan-end", at + " krn(1-Sncrt) = " + num(end) + " Sncrt " + num(F.P.Sncrt()) + " Sncri " + num(F.P.Sncri()));
+                }
+                if (same && m > F.tD.sw.front() && m < 1.0) {              // identical curves meet at Snmaxd: continuous start
+                    const double above = Hyst::twoPhaseSatKrn(F.P, std::nextafter(m, 2.0));
+                    chk(close(above, kd, 1e-7, 1e-10), "full.killough.scan-continuous", at + " just above the reversal point " + num(above) + " drainage " + num(kd));
+                }
+                if (krModel == 4 && m < 1.0) {                                   // wetting phase: continuous start for any pair of curves
+                    const double above = Hyst::twoPhaseSatKrw(F.P, std::nextafter(m, 2.0)), kwd = Eps::twoPhaseSatKrw(drain, m);
+                    if (std::fabs(Eps::twoPhaseSatKrw(imb, 1.0 - eSncri) - Eps::twoPhaseSatKrw(imb, 1.0 - eSnmaxd)) > 1e-3)
+                        chk(close(above, kwd, 1e-7, 1e-10), "full.killough.krw-scan-continuous", at + " just above the reversal point " + num(above) + " drainage " + num(kwd));
+                }
+            }
+            // --- Killough capillary pressure (primary drainage branch)
+            if (pcModel == 0 && !F.P.initialImb()) {
+                const double m = F.P.pcSwMdc(), swma = 1.0 - F.P.Sncrt(), w = F.P.pcWght();
+                for (int q = 0; q <= 30; ++q) {
+                    const double sw = q / 30.0, v = Hyst::twoPhaseSatPcnw(F.P, sw);
+                    const double pcd = Eps::twoPhaseSatPcnw(drain, sw), pci = Eps::twoPhaseSatPcnw(imb, sw);
+                    if (sw <= m) chk(v == pcd, "full.pc.drainage", at + " sw=" + num(sw));
+                    else if (sw >= swma) chk(v == pci, "full.pc.imbibition-beyond-trapped", at + " sw=" + num(sw) + " pc " + num(v) + " imbibition " + num(pci) + " 1-Sncrt " + num(swma));
+                    else chk(v >= std::min(pcd, w * pci) - 1e-6 - 1e-12 * std::fabs(pcd) && v <= std::max(pcd, w * pci) + 1e-6 + 1e-12 * std::fabs(pcd), "full.pc.scanning-between",
+                             at + " sw=" + num(sw) + " pc " + num(v) + " drainage " + num(pcd) + " aligned imbibition " + num(w * pci));
+                }
+                if (m < swma && m < 1.0) {
+                    const double sw = std::nextafter(m, 2.0);
+                    chk(close(Hyst::twoPhaseSatPcnw(F.P, sw), Eps::twoPhaseSatPcnw(drain, sw), 1e-7, 1e-3), "full.pc.scan-continuous", at + " sw=" + num(sw));
+                    // the other end of the scanning curve (F = 1): the aligned imbibition curve at the trapped saturation
+                    const double se = std::nextafter(swma, 0.0);
+                    if (se > m && swma - m > 1e-3)
+                        chk(close(Hyst::twoPhaseSatPcnw(F.P, se), w * Eps::twoPhaseSatPcnw(imb, se), 1e-6, 1e-2), "full.pc.scan-end",
+                            at + " sw=" + num(se) + " pc " + num(Hyst::twoPhaseSatPcnw(F.P, se)) + " aligned imbibition " + num(w * Eps::twoPhaseSatPcnw(imb, se)));
+                }
+            }
+            if (F.sys != 0) chk(!F.P.initialImb(), "full.pc.initial-imbibition-only-oil-water", at);
+        }
+        // --- a repeated saturation history changes nothing
+        {
+            Hyst::Params Q = F.P;
+            bool any = false;
+            for (const Triple& t : h) any = Q.update(t.pc, t.krw, t.krn) || any;
+            chk(!any && Q == F.P && Q.pcSwMdc() == F.P.pcSwMdc(), "full.repeated-history", tag + std::to_string(h.size()) + " steps");
+        }
+    }
+}
+
 int main(int argc, char** argv)
 {
     if (argc < 5) { std::cerr << "usage: satfunc corr|prop <seed> <tier> <outdir>\n"; return 2; }
@@ -639,6 +755,7 @@ int main(int argc, char** argv)
     if (mode == "prop") {
         vh::PropLog log(out + "/prop.txt");
         propAll(r, log, thorough ? 6000 : 800);
+        propFull(r, log, thorough ? 6000 : 1000);
         std::ofstream st(out + "/prop_stats.json");
         st << "{\"checked\": " << log.checked << ", \"failed\": " << log.failed << "}\n";
         return 0;
